@@ -83,7 +83,17 @@ class MoveSession:
             left = 0 if kind == "move" else int(left)
             out = ["ok", ret, self.w.dyn_wire(), left]
         else:
-            out = ["err", st]
+            if st == "crash" and str(val).startswith("KeyError"):
+                st = "keyError"                  # Grid.remove of an agent that is in no cell (named by exception type)
+            post = self.w.dyn_wire()
+            if post != pre:
+                # the call RAISED and left another world behind (round 6: a move processed for an agent that an attack
+                # took off the grid).  The judge has no "raised" outcome that carries a world, so it is handed the
+                # world as that of a call that returned False: "refused => nothing changed" and the invariant judge it
+                out = ["ok", 0, post, 0]
+                self.raised_changed = st
+            else:
+                out = ["err", st]
         return pre, cw, out
 
 
@@ -117,6 +127,9 @@ class MoveProp(core.Prop):
 
     def _tags(self, sess, pre, cw, out):
         tags = [cw[0]]
+        if getattr(sess, "raised_changed", None):
+            tags.append("raised-with-changed-world:" + str(sess.raised_changed))
+            sess.raised_changed = None
         if out[0] != "ok":
             tags.append("err:" + out[1])
         elif out[1] == -1:
@@ -238,16 +251,15 @@ class MoveProp(core.Prop):
                     desc = _retable(rng, sess, desc)      # the overlap table is replaced on the live grid
                 a = rng.randrange(n)
                 ag = sess.w.agent_list[a]
-                if not ag.active and rng.random() < 0.9:
-                    continue      # acting with an inactive agent is outside the hypothesis (O5)
+                if not ag.active and rng.random() < 0.7:
+                    continue      # a move for an inactive agent raises KeyError from Grid.remove (or is refused): the
+                    #               world must be what it was (round 6); most cases go to the living
                 kind = rng.choice(["move", "cross", "drift"])
                 if kind == "move":
                     R = sess.stat[3][a][5]
                     arg = (rng.randint(-R, R), rng.randint(-R, R))
                 else:
                     arg = rng.randrange(5)
-                if not ag.active:
-                    continue
                 rep = None
                 if rng.random() < 0.4:
                     rep = rng.choice(["int64", "int32", "int16", "int8"] if kind == "move" else
